@@ -1,7 +1,7 @@
 (* C05 — the printed form reads back: token-level printer/parser round trip, and the byte-level
    printer is the rendering of the token-level one. *)
 From PGV Require Import Base.Value Base.ValueFacts C05.Model.
-From Coq Require Import Lia.
+From Coq Require Import Lia ZArith.
 Open Scope nat_scope.
 
 (* ------------------------------------------------------------------ print v = render (print_tokens v) *)
@@ -233,4 +233,236 @@ Theorem print_parse_partial_lemma : forall v,
   lex (S (List.length (print v))) (print v) = Some (print_tokens v) -> parse (print v) = Some v.
 Proof.
   intros v H. unfold parse. rewrite H. apply parse_print_tokens_lemma.
+Qed.
+
+(* ------------------------------------------------------------------ the lexer recovers the tokens *)
+Open Scope N_scope.
+Ltac Zify.zify_post_hook ::= Z.to_euclidean_division_equations.
+
+(* ---- decimal numerals ---- *)
+Definition dval (ds : list N) (a : N) : N := fold_left (fun a d => a * 10 + (d - 48)) ds a.
+
+Definition nodigit_start (l : list N) : Prop := match l with b :: _ => is_digit b = false | [] => True end.
+
+Lemma is_digit_spec b : is_digit b = true <-> 48 <= b <= 57.
+Proof. unfold is_digit. rewrite andb_true_iff, !N.leb_le. tauto. Qed.
+
+Lemma lex_digits_app ds rest a :
+  Forall (fun d => is_digit d = true) ds -> nodigit_start rest ->
+  lex_digits (ds ++ rest) a = (dval ds a, rest).
+Proof.
+  revert a. induction ds as [|d ds IH]; intros a Hd Hr; cbn [app lex_digits].
+  - destruct rest as [|b r]; [reflexivity|]. cbn [nodigit_start] in Hr. cbn [lex_digits]. rewrite Hr. reflexivity.
+  - inversion Hd as [|? ? H1 H2]; subst. rewrite H1. unfold dval. cbn [fold_left]. apply IH; auto.
+Qed.
+
+Lemma dval_app ds1 ds2 a : dval (ds1 ++ ds2) a = dval ds2 (dval ds1 a).
+Proof. unfold dval. apply fold_left_app. Qed.
+
+Lemma digits_fuel_spec f : forall n acc, n < 2 ^ N.of_nat f ->
+  exists ds, digits_fuel f n acc = ds ++ acc /\ Forall (fun d => is_digit d = true) ds /\
+             (f <> O -> ds <> []) /\ exists P, forall a, dval ds a = a * P + n.
+Proof.
+  induction f as [|f IH]; intros n acc Hn.
+  - cbn in Hn. assert (n = 0) as -> by lia. exists []. split; [reflexivity|]. split; [constructor|]. split; [congruence|].
+    exists 1. intros a. unfold dval. cbn [fold_left]. lia.
+  - cbn [digits_fuel].
+    assert (Hd : is_digit (48 + n mod 10) = true).
+    { apply is_digit_spec. assert (n mod 10 < 10) by (apply N.mod_lt; lia). lia. }
+    destruct (n / 10 =? 0) eqn:E.
+    + apply N.eqb_eq in E. exists [48 + n mod 10]. split; [reflexivity|]. split; [constructor; auto|]. split; [congruence|].
+      exists 10. intros a. unfold dval. cbn [fold_left].
+      assert (n = 10 * (n / 10) + n mod 10) by (apply N.div_mod; lia). assert (n mod 10 < 10) by (apply N.mod_lt; lia). lia.
+    + apply N.eqb_neq in E.
+      assert (Hlt : n / 10 < 2 ^ N.of_nat f).
+      { rewrite Nat2N.inj_succ, N.pow_succ_r' in Hn.
+        apply N.div_lt_upper_bound; [lia|]. lia. }
+      destruct (IH (n / 10) ((48 + n mod 10) :: acc) Hlt) as (ds & E1 & F1 & _ & P & HP).
+      exists (ds ++ [48 + n mod 10]). rewrite E1, <- app_assoc. split; [reflexivity|]. split.
+      * apply Forall_app. split; auto.
+      * split; [intros _ Hc; apply app_eq_nil in Hc as [_ Hc]; discriminate|].
+        exists (P * 10). intros a. rewrite dval_app, HP. unfold dval. cbn [fold_left].
+        assert (n = 10 * (n / 10) + n mod 10) by (apply N.div_mod; lia). assert (n mod 10 < 10) by (apply N.mod_lt; lia). nia.
+Qed.
+
+Lemma print_N_digits n : exists ds,
+  digits_fuel (S (N.to_nat (N.log2 n))) n [] = ds /\ Forall (fun d => is_digit d = true) ds /\ ds <> [] /\ dval ds 0 = n.
+Proof.
+  assert (Hn : n < 2 ^ N.of_nat (S (N.to_nat (N.log2 n)))).
+  { rewrite Nat2N.inj_succ, N2Nat.id. destruct (N.eq_dec n 0) as [->|Hz]; [cbn; lia|].
+    apply N.log2_spec. lia. }
+  destruct (digits_fuel_spec _ n [] Hn) as (ds & E & F & Hne & P & HP).
+  exists ds. rewrite E, app_nil_r. split; auto. split; auto. split; [apply Hne; discriminate|].
+  rewrite HP. lia.
+Qed.
+
+(* ---- strings ---- *)
+Lemma lex_string_other b l acc : b <> 34 -> b <> 92 -> lex_string (b :: l) acc = lex_string l (b :: acc).
+Proof.
+  intros H1 H2. destruct b as [|p]; [reflexivity|].
+  repeat (destruct p as [p|p|]; cbn [lex_string]; try reflexivity; try (exfalso; lia)).
+Qed.
+
+Lemma lex_string_quote s : forall acc rest,
+  lex_string (flat_map quote_byte s ++ 34 :: rest) acc = Some (rev acc ++ s, rest).
+Proof.
+  induction s as [|b s IH]; intros acc rest; cbn [flat_map app].
+  - cbn. rewrite app_nil_r. reflexivity.
+  - unfold quote_byte at 1. destruct ((b =? 34) || (b =? 92)) eqn:E.
+    + cbn [app]. destruct (N.eq_dec b 34) as [->|H34].
+      * cbn [lex_string N.eqb Pos.eqb orb]. rewrite IH. cbn [rev]. rewrite <- app_assoc. reflexivity.
+      * assert (b = 92) as -> by (apply orb_true_iff in E as [E|E]; apply N.eqb_eq in E; congruence).
+        cbn [lex_string N.eqb Pos.eqb orb]. rewrite IH. cbn [rev]. rewrite <- app_assoc. reflexivity.
+    + apply orb_false_iff in E as [E1 E2]. apply N.eqb_neq in E1, E2. cbn [app].
+      rewrite lex_string_other by auto.
+      rewrite IH. cbn [rev]. rewrite <- app_assoc. reflexivity.
+Qed.
+
+(* ---- one token ---- *)
+Definition is_kw (t : token) : bool := match t with TNum _ | TStr _ => false | _ => true end.
+
+Definition cons_tok (t : token) (o : option (list token)) : option (list token) :=
+  match o with Some ts => Some (t :: ts) | None => None end.
+
+Lemma lex_step_kw t f R : is_kw t = true -> lex (S f) (render_token t ++ R) = cons_tok t (lex f R).
+Proof. destruct t; try discriminate; intros _; reflexivity. Qed.
+
+Lemma lex_step_str s f R : lex (S f) (render_token (TStr s) ++ R) = cons_tok (TStr s) (lex f R).
+Proof.
+  cbn [render_token]. unfold print_str. cbn [app]. rewrite <- app_assoc. cbn [app].
+  cbn [lex]. change (lex_keyword keywords (34 :: flat_map quote_byte s ++ 34 :: R)) with (@None (token * list N)).
+  cbn [N.eqb Pos.eqb]. rewrite lex_string_quote. reflexivity.
+Qed.
+
+Lemma digit_cases b : is_digit b = true ->
+  b = 48 \/ b = 49 \/ b = 50 \/ b = 51 \/ b = 52 \/ b = 53 \/ b = 54 \/ b = 55 \/ b = 56 \/ b = 57.
+Proof. intros H. apply is_digit_spec in H. lia. Qed.
+
+Lemma lex_keyword_digit b l : is_digit b = true -> lex_keyword keywords (b :: l) = None.
+Proof.
+  intros H. apply digit_cases in H.
+  destruct H as [->|[->|[->|[->|[->|[->|[->|[->|[->| ->]]]]]]]]]; reflexivity.
+Qed.
+
+Lemma lex_step_num z f R : nodigit_start R -> lex (S f) (render_token (TNum z) ++ R) = cons_tok (TNum z) (lex f R).
+Proof.
+  intros HR. cbn [render_token]. unfold print_Z.
+  destruct (print_N_digits (Z.abs_N z)) as (ds & -> & Fd & Hne & Hv).
+  destruct ds as [|d ds]; [congruence|]. inversion Fd as [|? ? Hd Fd']; subst.
+  destruct (z <? 0)%Z eqn:Ez.
+  - cbn [app lex]. change (lex_keyword keywords (45 :: (d :: ds) ++ R)) with (@None (token * list N)).
+    cbn [N.eqb Pos.eqb is_digit N.leb N.compare Pos.compare Pos.compare_cont andb]. cbn [app]. rewrite Hd.
+    change (d :: ds ++ R) with ((d :: ds) ++ R). rewrite lex_digits_app by auto. rewrite Hv.
+    assert (- Z.of_N (Z.abs_N z) = z)%Z as -> by lia. reflexivity.
+  - cbn [app lex]. rewrite lex_keyword_digit by auto.
+    assert (d =? 34 = false) as -> by (apply N.eqb_neq; apply is_digit_spec in Hd; lia).
+    rewrite Hd. change (d :: ds ++ R) with ((d :: ds) ++ R). rewrite lex_digits_app by auto. rewrite Hv.
+    assert (Z.of_N (Z.abs_N z) = z)%Z as -> by lia. reflexivity.
+Qed.
+
+(* ---- token sequences in which a number is never directly followed by a number ---- *)
+Definition next_ok (r : list token) : Prop := match r with TNum _ :: _ => False | _ => True end.
+
+Fixpoint wsep (ts : list token) : Prop :=
+  match ts with
+  | [] => True
+  | TNum _ :: r => next_ok r /\ wsep r
+  | _ :: r => wsep r
+  end.
+
+Lemma nodigit_render ts : next_ok ts -> nodigit_start (render ts).
+Proof.
+  destruct ts as [|t ts]; [intros _; exact I|].
+  destruct t; try contradiction; intros _; reflexivity.
+Qed.
+
+Lemma render_token_nonempty t : render_token t <> [].
+Proof.
+  destruct t; try discriminate.
+  - cbn. unfold print_Z. destruct (print_N_digits (Z.abs_N z)) as (ds & -> & _ & Hne & _).
+    destruct (z <? 0)%Z; [discriminate|exact Hne].
+Qed.
+
+Lemma render_length ts : (List.length ts <= List.length (render ts))%nat.
+Proof.
+  induction ts as [|t ts IH]; [cbn; lia|].
+  change (render (t :: ts)) with (render_token t ++ render ts). rewrite app_length. cbn [List.length].
+  pose proof (render_token_nonempty t). destruct (render_token t); [congruence|]. cbn [List.length]. lia.
+Qed.
+
+Lemma lex_render ts : forall f, wsep ts -> (List.length ts < f)%nat -> lex f (render ts) = Some ts.
+Proof.
+  induction ts as [|t ts IH]; intros f Hw Hf; (destruct f as [|f]; [lia|]).
+  - reflexivity.
+  - change (render (t :: ts)) with (render_token t ++ render ts).
+    cbn [List.length] in Hf.
+    assert (Hrest : wsep ts) by (destruct t; cbn in Hw; tauto).
+    assert (IH' : lex f (render ts) = Some ts) by (apply IH; auto; lia).
+    destruct t; try (rewrite lex_step_kw by reflexivity; rewrite IH'; reflexivity).
+    + rewrite lex_step_num by (apply nodigit_render; cbn in Hw; tauto). rewrite IH'. reflexivity.
+    + rewrite lex_step_str. rewrite IH'. reflexivity.
+Qed.
+
+(* ---- the printer's token sequences are of that kind ---- *)
+Lemma wsep_tjoin_sets xs : forall r,
+  (forall x, In x xs -> forall rest, wsep rest -> next_ok rest -> wsep (print_tokens x ++ rest)) ->
+  wsep r -> next_ok r -> wsep (tjoin [TComma] (map print_tokens xs) ++ r).
+Proof.
+  induction xs as [|x xs IH]; intros r Hx Hr Hn; [exact Hr|].
+  destruct xs as [|y ys].
+  - cbn [map tjoin]. apply Hx; cbn; auto.
+  - change (tjoin [TComma] (map print_tokens (x :: y :: ys)))
+      with (print_tokens x ++ [TComma] ++ tjoin [TComma] (map print_tokens (y :: ys))).
+    rewrite <- !app_assoc. apply Hx; [cbn; auto| |exact I].
+    cbn [app wsep]. apply IH; auto. intros z Hz. apply Hx. right. exact Hz.
+Qed.
+
+Lemma wsep_tjoin_bindings kvs : forall r,
+  (forall k v, In (k, v) kvs ->
+     (forall rest, wsep rest -> next_ok rest -> wsep (print_tokens k ++ rest)) /\
+     (forall rest, wsep rest -> next_ok rest -> wsep (print_tokens v ++ rest))) ->
+  wsep r -> next_ok r -> wsep (tjoin [TAtAt] (map binding_tokens kvs) ++ r).
+Proof.
+  assert (B : forall k v r,
+     (forall rest, wsep rest -> next_ok rest -> wsep (print_tokens k ++ rest)) ->
+     (forall rest, wsep rest -> next_ok rest -> wsep (print_tokens v ++ rest)) ->
+     wsep r -> wsep (binding_tokens (k, v) ++ r)).
+  { intros k v r Hk Hv Hr. cbn [binding_tokens app wsep]. rewrite <- !app_assoc. apply Hk; [|exact I].
+    cbn [app wsep]. rewrite <- app_assoc. apply Hv; [|exact I]. cbn [app wsep]. exact Hr. }
+  induction kvs as [|[k v] kvs IH]; intros r Hx Hr Hn; [exact Hr|].
+  destruct (Hx k v (or_introl eq_refl)) as [Hk Hv].
+  destruct kvs as [|q kvs].
+  - cbn [map tjoin]. apply B; auto.
+  - change (tjoin [TAtAt] (map binding_tokens ((k, v) :: q :: kvs)))
+      with (binding_tokens (k, v) ++ [TAtAt] ++ tjoin [TAtAt] (map binding_tokens (q :: kvs))).
+    rewrite <- !app_assoc. apply B; auto. cbn [app wsep]. apply IH; auto.
+    intros k' v' Hin. apply Hx. right. exact Hin.
+Qed.
+
+Lemma wsep_print_tokens : forall v rest, wsep rest -> next_ok rest -> wsep (print_tokens v ++ rest).
+Proof.
+  induction v as [| b | z | s | xs IH | xs IH | kvs IH] using value_ind'; intros rest Hr Hn.
+  - exact Hr.
+  - destruct b; exact Hr.
+  - cbn. auto.
+  - exact Hr.
+  - rewrite All_In in IH. cbn [print_tokens app wsep]. rewrite <- app_assoc.
+    apply wsep_tjoin_sets; auto. exact I.
+  - rewrite All_In in IH. cbn [print_tokens app wsep]. rewrite <- app_assoc.
+    apply wsep_tjoin_sets; auto. exact I.
+  - destruct kvs as [|p kvs]; [exact Hr|]. rewrite All_In in IH.
+    cbn [print_tokens app wsep]. rewrite <- app_assoc.
+    match goal with |- context [map ?g (p :: kvs)] =>
+      replace (map g (p :: kvs)) with (map binding_tokens (p :: kvs)) by (apply map_ext; intros [? ?]; reflexivity) end.
+    apply wsep_tjoin_bindings; auto; [|exact I].
+    intros k v Hin. specialize (IH _ Hin). cbn in IH. exact IH.
+Qed.
+
+(* (5) at byte level: the printed form of EVERY value reads back to exactly that value *)
+Theorem print_parse_lemma : forall v, parse (print v) = Some v.
+Proof.
+  intros v. apply print_parse_partial_lemma. rewrite print_render.
+  apply lex_render.
+  - rewrite <- (app_nil_r (print_tokens v)). apply wsep_print_tokens; exact I.
+  - pose proof (render_length (print_tokens v)). lia.
 Qed.
